@@ -223,6 +223,8 @@ func (s *connectionWorker) serve(ctx context.Context, session *sessions.Session)
 }
 
 func (s *manager) shutdownSession(ctx context.Context, session *sessions.Session) {
+	// whatever ended the session, the broker is done with its connection
+	defer session.Close()
 	s.local.Delete(session.ID())
 	topics := session.GetTopics()
 	for idx := range topics {
